@@ -16,6 +16,7 @@ import (
 	_ "verif/mon/c16"
 	_ "verif/mon/c17"
 	_ "verif/mon/c18"
+	_ "verif/mon/c19"
 	_ "verif/mon/c20"
 	_ "verif/mon/chist"
 )
